@@ -823,7 +823,8 @@ def run(ctx):
                   'contains %s' % sorted(need), key='reserved',
                   reason='reserved_events is %s' % sorted(got),
                   where=m.cls(cname).module.relpath)
-    ctx.assume("event and namespace names differ from the literal '*'")
+    ctx.assume("names that coincide with the catch-all key '*' are covered "
+               "by their own row family (C13.R7)")
     ctx.assume('registered handlers are truthy, non-None objects')
     ctx.assume('sub-registries are only consulted under their own key '
                '(KeyError on an absent key counts as outside the table)')
